@@ -9,6 +9,34 @@ MODEL_MODE = os.environ.get("VERIF_C14_MODE", "fixed")
 # default this to "1" and set the two tombstone findings in known_findings.json to fixed; the `_fix3` theorems are
 # already proved for that semantics (model suite c14t).
 TOMBSTONE_FIX = os.environ.get("VERIF_C14_TOMB", "0") == "1"
+# hooks/C14-fix4.patch (SerializedSegment.ToSegment reads s.Edges[nodeIndex]): the live model follows the status of the
+# finding in known_findings.json — set that entry to "status": "fixed", "commit": "<hash>" when the patch lands and the
+# model driver switches to the repaired ToSegment (suite c14s); nothing else to edit. VERIF_C14_SEG4=1/0 overrides.
+
+
+def _toseg_fixed():
+    ov = os.environ.get("VERIF_C14_SEG4")
+    if ov in ("0", "1"):
+        return ov == "1"
+    import json
+    here = os.path.dirname(os.path.dirname(os.path.dirname(os.path.abspath(__file__))))
+    try:
+        for f in json.load(open(os.path.join(here, "known_findings.json")))["findings"]:
+            if f.get("key") == "C14:SerializedSegment.ToSegment:Edges-index-minus-one-panic":
+                return f.get("status") == "fixed"
+    except Exception:
+        pass
+    return False
+
+
+TOSEGMENT_FIX = _toseg_fixed()
+
+import regen
+
+
+def do_regen(ctx):
+    regen.goext("c14api", "C14Api.lean")   # container/*.go, container/util/*.go -> exported entry points returning a graph container
+
 
 P = "Dawgs.C14.Props."
 THEOREMS = {
@@ -25,7 +53,12 @@ THEOREMS = {
         "reach_eq",
         "bfsTree_dist_eq",
         "normalize_iso",
+        "normalize_nodes",
+        "normalize_preserves_dist",
+        "oracle_exact",
         "segment_roundtrip",
+        "factories_eq",
+        "fetch_eq",
         "handle_noninterference",
         "handle_view_eq",
         "handle_child_eq",
@@ -40,8 +73,12 @@ THEOREMS = {
         "traversals_eq_fix3",
         "dimensions_eq",
         "ts_numEdges_tombstone_refuted",
-        "toSegment_panics",
-        "toSegment_partial",
+        "toSegment_wf",
+        "toSegment_serialize",
+        "serialize_toSegment",
+        "toSegment_no_nodes",
+        "toSegment_excess_edges",
+        "toSegment_missing_edges",
         "c14",
         # the code before 789c790 (F2): refutations and what held then
         "ts_adj_both_refuted_old",
@@ -50,8 +87,10 @@ THEOREMS = {
         "proj_adj_eq_old_partial",
         "c14_refuted_old",
         "adjmap_numEdges_refuted_old",
+        "toSegment_panics_old",
         "c14_old_partial",
     ]],
+    "Dawgs.Props.C14Api": ["Dawgs.C14.Api.constructors_covered", "Dawgs.C14.Api.covered_exist"],
 }
 
 CLASS_KEYS = {
@@ -73,7 +112,7 @@ def finding_key(suite, ops, line, msg):
     if cls in CLASS_KEYS:
         return CLASS_KEYS[cls]
     op = ops[line].split() if line < len(ops) else []
-    site = ".".join(op[:3]) if op and op[0] in ("adj", "adj1", "reach", "reach1", "bfs", "bfs1", "norm", "nodes", "tsbfs", "tsdfs", "tssl", "dims", "numedges", "snap") else (op[0] if op else "?")
+    site = ".".join(op[:3]) if op and op[0] in ("adj", "adj1", "reach", "reach1", "bfs", "bfs1", "norm", "nodes", "tsbfs", "tsdfs", "tssl", "dims", "numedges", "snap", "fetch") else (op[0] if op else "?")
     return "C14:%s:%s" % (site, cls)
 
 
@@ -118,7 +157,7 @@ def extra_coverage(ctx, stats):
             "projections: every deleted-node subset x deleted-edge subset of every small digraph": pj,
             "note": "small-scope enumeration supports the tie and the monitor; the for-all statement is carried by the Lean theorems",
         },
-        "model_mode": MODEL_MODE,
+        "model_mode": MODEL_MODE, "tosegment_fix_live": TOSEGMENT_FIX, "tombstone_fix_live": TOMBSTONE_FIX,
         "multiplicity_info": "CSR reported a neighbour twice under `both` in %d adjacency answers (parallel/antiparallel/self-loop); recorded, not judged" % stats.get("info.csr.both.duplicate_callback", 0),
     }
 
@@ -127,12 +166,13 @@ SPEC = {
     "id": "C14",
     "title": "all directed-graph containers present the same graph",
     "level": "proof",
-    "lean_modules": ["Dawgs.Props.C14"],
+    "regen": do_regen,
+    "lean_modules": ["Dawgs.Props.C14", "Dawgs.Props.C14Api"],
     "theorems_by_module": THEOREMS,
     "gate_modules": ["Dawgs.Model.C14", "Dawgs.Spec.C14", "Dawgs.Proofs.C14", "Dawgs.Proofs.C14TS", "Dawgs.Proofs.C14Csr", "Dawgs.Proofs.C14Reach",
                      "Dawgs.Proofs.C14Bfs", "Dawgs.Proofs.C14Norm", "Dawgs.Proofs.C14Seg", "Dawgs.Proofs.C14Trav", "Dawgs.Proofs.C14TravInst", "Dawgs.Proofs.C14Edges", "Dawgs.Proofs.C14Dims",
-                     "Dawgs.Proofs.C14Glue", "Dawgs.Proofs.C14Heap", "Dawgs.Props.C14"],
-    "suites": [{"name": "c14", "model_suite": ("c14t" if TOMBSTONE_FIX else "c14") if MODEL_MODE == "fixed" else "c14old", "monitor_suite": "c14mon",
+                     "Dawgs.Proofs.C14ToSeg", "Dawgs.Proofs.C14Factory", "Dawgs.Proofs.C14Glue", "Dawgs.Proofs.C14Heap", "Dawgs.Proofs.C14Oracle", "Dawgs.Props.C14Api", "Dawgs.Props.C14"],
+    "suites": [{"name": "c14", "model_suite": ("c14" + ("t" if TOMBSTONE_FIX else "") + ("s" if TOSEGMENT_FIX else "")) if MODEL_MODE == "fixed" else "c14old", "monitor_suite": "c14mon",
                 "keep_prefix": 2, "shrink_budget": 60, "thorough_seeds": 1}],
     "nontrivial": nontrivial,
     "finding_key": finding_key,
@@ -150,13 +190,16 @@ SPEC = {
         "branch.proj.deleted_nodes", "branch.proj.deleted_edges", "branch.proj.nested", "branch.ts.delete_edge",
         "branch.reach.start_on_cycle", "branch.reach.empty", "branch.bfs.distance_ge3", "branch.normalize.am", "branch.normalize.csr",
         "branch.seg.single_node", "branch.tsbfs.both", "branch.tsdfs.in", "branch.traversal.depth_exceeded",
-        "branch.traversal.unbounded_depth", "branch.zone.readeach", "branch.adj1.csr", "branch.toseg", "branch.tssl.both", "branch.tssl.in", "branch.numedges.proj", "branch.dims", "gen.shape.proj_deletes_non_node", "branch.handles.reobserved", "branch.snap", "branch.proj.nested",
+        "branch.traversal.unbounded_depth", "branch.zone.readeach", "branch.adj1.csr", "branch.toseg", "branch.tssl.both", "branch.tssl.in", "branch.numedges.proj", "branch.dims", "gen.shape.proj_deletes_non_node", "branch.handles.reobserved", "branch.snap", "branch.proj.nested", "branch.proj.provider.tsd", "branch.proj.provider.tsd2", "branch.factory.build", "branch.factory.nil_list", "branch.factory.empty_list", "branch.factory.fetch.all", "branch.factory.fetch.k1",
     ],
     "trusted_base": [
         "RoaringBitmap / cardinality.Bitmap64 native Add/Or/Contains/Each (modelled as ascending lists), Go maps, gammazero/deque, encoding/binary, compress/gzip",
         "unexported container methods reached through interface assertions (Normalize, DeleteEdge, triplestore.AddNode) — no hook needed",
     ],
     "assumptions": [
+        "factory surface: every exported function/method of container and container/util whose result is a graph container is regenerated by tools/extract/goext (mode c14api) on every run and must be an op of the suite or exempt (Props/C14Api: constructors_covered, covered_exist); factory-built graphs are observed through a sorting wrapper because the factories range over a Go map; FetchDirectedGraph runs against a stub graph.Database that supports Filter(nil | KindMatcher) + Query only",
+        "projection arguments are passed in every Duplex[uint64] implementation the cardinality package constructs (NewBitmap64With, ThreadSafeDuplex of it, doubly wrapped), parent x child in all combinations in the exhaustive nested family",
+        "reachability / BFS distance / normalisation clauses are Lean theorems for ALL build histories (reach_eq, bfsTree_dist_eq, normalize_iso, normalize_nodes, normalize_preserves_dist); the naive oracle the monitor judges the real containers with is itself proved exact (oracle_exact); what remains search-only for these clauses is the transcription (tie) of the Go loops, incl. their unbounded `for queue.Len() > 0` vs the model's fuel (proved sufficient)",
         "projection handles: from the first `proj` of a case on, EVERY answer is followed by FNV-1a digests of the full canonical view (NumNodes, EachNode, NumEdges, EachEdge, per node x direction EachAdjacentNode set and EachAdjacentEdge ids) of every live handle and of the caller-owned bitmaps passed to Projection; impl, model (handles are immutable values) and spec monitor must agree on all of them; `snap H` gives the full text",
         "ids are < 2^64 (the Go code cannot represent others); the Lean theorems hold for all naturals",
         "EachAdjacentNode multiplicity is not part of the property: answers are compared as sets by the monitor and as exact callback sequences by the model tie",
